@@ -76,11 +76,11 @@ Print Assumptions C04_refused_gets_no_bytes.
    (3) x secret (10: none, right, unrelated, strict prefixes, suffix, right+1, case-flipped, one character changed, another
    mapping's secret) x resume token (2) x state of the named mapping (10: active, revoked, expired an hour / 25 s / 10 s / 2 s / 1 ms ago, expiring in 60 s, inactive, missing)
    x tunnel state at arrival (4) = 12000 cells for ordinary mappings, plus the mapping-party dimension (stored listening client id 0 = server-side
-   listener; stored target client id 0) on a 2 x 5 x 3 x 4 x 3 x 3 = 1080-cell sub-table: 13080 cells, the
+   listener; stored target client id 0; mappings that store NO secret) on 1080 + 270 sub-table cells: 13350 cells, the
    bound being exactly the cell type: on every cell an attachment implies entitlement, and a request that is not
    entitled is refused WITH a failure acknowledgement *)
 Theorem C04_table_all_cells :
-  N.of_nat (length all_cells) = 13080%N /\
+  N.of_nat (length all_cells) = 13350%N /\
   (forall c, In c all_cells -> cell_ok current c = true) /\
   (forall c : cell, attaches (cell_open current c) = true -> cell_entitled c = true) /\
   (forall c : cell, In c all_cells -> cell_entitled c = false -> cell_open current c = Refuse true).
@@ -303,4 +303,14 @@ Theorem C04_local_wait_without_recheck_refuted :
   holds s 2001 9 /\ s_tun s 9 = Some {| b_mid := 1; b_src := Some 2000; b_tgt := Some 2001 |} /\ In (2001, 9, false) (s_log s).
 Proof. exact local_wait_without_recheck_refuted. Qed.
 Print Assumptions C04_local_wait_without_recheck_refuted.
+
+(* (13) a mapping that stores NO secret (connection-code mappings are created with an empty SecretKey): whatever non-empty secret a
+   requester presents is not "the mapping's secret" — every store, every requester (the listening client with the mapping id alone is
+   the only way in; (1) already says so, this is the headline form) *)
+Theorem C04_no_stored_secret_accepts_no_presented_secret :
+  forall cfg (d : db) tun rt (c : conn_id) (r : request) (m : mapping),
+    d (tunnel_mid tun rt r) = Some m -> m_secret m = 0 -> r_secret r <> 0 ->
+    refused (open current cfg d tun rt c r) = true.
+Proof. exact no_stored_secret. Qed.
+Print Assumptions C04_no_stored_secret_accepts_no_presented_secret.
 Close Scope N_scope.
